@@ -197,6 +197,9 @@ var positions = []position{
 	{name: "spacelessinclude", group: "spaceless", hole: 'E', spless: true, tpls: map[string]string{
 		"top": "{% include '#part#' %}", "part": "{% spaceless %}<a> {{ <E> }} </a>{% endspaceless %}"}},
 	{name: "spacelessfilter", group: "spaceless", hole: 'E', spless: true, tpls: map[string]string{"top": "{{ <E> }}{{ s|spaceless }}"}},
+	{name: "spacelessshort", group: "spaceless", hole: 'E', spless: true, tpls: map[string]string{"top": "{% spaceless %}{{ <E> }}{% endspaceless %}"}},
+	{name: "spacelessempty", group: "spaceless", hole: 0, spless: true, tpls: map[string]string{"top": "{% spaceless %}{% endspaceless %}k{% spaceless %} {% endspaceless %}"}},
+	{name: "applyempty", group: "apply", hole: 0, tpls: map[string]string{"top": "{% apply @f %}{% endapply %}k{% apply @f %}{{ undefinedvar }}{% endapply %}"}},
 	// macro bodies built through the exported node constructors: text containing {{ name|filter }}
 	// is interpolated by CallMacro itself
 	{name: "apimacrotext", group: "apimacro", hole: 0, tpls: map[string]string{
@@ -314,6 +317,7 @@ type site struct {
 	Kind byte
 	Tpl  string // template the site is written in
 	Ref  string // referenced template / macro name
+	Ignore bool // (template names) written in a tag that carries `ignore missing`
 }
 
 type program struct {
@@ -325,23 +329,32 @@ type program struct {
 	names  []string          // sorted template names
 	sites  []site
 	hasTol bool
+	nested bool
 }
 
 var markerRE = regexp.MustCompile(`@[fgtu]|#[a-z0-9]+#|\$[a-z0-9]+\$`)
 
 func newProgram(p *position, f form) *program {
-	pr := &program{id: p.name + "/" + f.name, pos: p, form: f.name, top: p.top, raw: map[string]string{}}
-	if pr.top == "" {
-		pr.top = "top"
-	}
+	id := p.name + "/" + f.name
 	if p.hole == 0 {
-		pr.id = p.name
+		id = p.name
 	}
+	raw := map[string]string{}
 	for n, s := range p.tpls {
 		s = strings.ReplaceAll(s, "<E>", f.src)
 		s = strings.ReplaceAll(s, "<S>", f.src)
 		s = strings.ReplaceAll(s, "<N>", f.src)
-		pr.raw[n] = s
+		raw[n] = s
+	}
+	return buildProgram(id, p, f.name, p.top, raw)
+}
+
+func buildProgram(id string, p *position, formName, top string, raw map[string]string) *program {
+	pr := &program{id: id, pos: p, form: formName, top: top, raw: raw}
+	if pr.top == "" {
+		pr.top = "top"
+	}
+	for n, s := range raw {
 		pr.names = append(pr.names, n)
 		if strings.Contains(s, "«") {
 			pr.hasTol = true
@@ -351,19 +364,129 @@ func newProgram(p *position, f form) *program {
 	// number the sites
 	k := 0
 	for _, n := range pr.names {
-		for _, mk := range markerRE.FindAllString(pr.raw[n], -1) {
+		src := pr.raw[n]
+		for _, loc := range markerRE.FindAllStringIndex(src, -1) {
+			mk := src[loc[0]:loc[1]]
 			k++
 			switch mk[0] {
 			case '@':
 				pr.sites = append(pr.sites, site{Key: fmt.Sprintf("%c%d", mk[1], k), Kind: mk[1], Tpl: n})
 			case '#':
-				pr.sites = append(pr.sites, site{Key: fmt.Sprintf("T%d", k), Kind: 'T', Tpl: n, Ref: mk[1 : len(mk)-1]})
+				// is the reference written in a tag that carries `ignore missing`?
+				ignore := false
+				if a := strings.LastIndex(src[:loc[0]], "{%"); a >= 0 {
+					if b := strings.Index(src[loc[1]:], "%}"); b >= 0 {
+						ignore = strings.Contains(src[a:loc[1]+b], "ignore missing")
+					}
+				}
+				pr.sites = append(pr.sites, site{Key: fmt.Sprintf("T%d", k), Kind: 'T', Tpl: n, Ref: mk[1 : len(mk)-1], Ignore: ignore})
 			case '$':
 				pr.sites = append(pr.sites, site{Key: fmt.Sprintf("M%d", k), Kind: 'M', Tpl: n, Ref: mk[1 : len(mk)-1]})
 			}
 		}
 	}
 	return pr
+}
+
+// ---- depth-2 nesting: a whole program placed inside a statement-level wrapper
+
+type wrapper struct {
+	name, group, top string
+	tpls             map[string]string // <B> = the place of the inner program
+}
+
+const wp = "x, xs, m, s"
+
+var wrappers = []wrapper{
+	{name: "wloop", group: "loop", tpls: map[string]string{"top": "{% for q in [1, 2] %}<B>{% endfor %}"}},
+	{name: "wif", group: "if", tpls: map[string]string{"top": "{% if x is @t %}<B>{% endif %}"}},
+	{name: "welse", group: "if", tpls: map[string]string{"top": "{% if @g(0) %}n{% else %}<B>{% endif %}"}},
+	{name: "wblock", group: "block", tpls: map[string]string{"top": "[{% block w %}<B>{% endblock %}]"}},
+	{name: "wchild", group: "extends", tpls: map[string]string{
+		"wbase": "[{% block w %}W{% endblock %}]",
+		"top":   "{% extends '#wbase#' %}{% block w %}<B>{% endblock %}"}},
+	{name: "wparent", group: "parent", tpls: map[string]string{
+		"wbase": "[{% block w %}<B>{% endblock %}]",
+		"top":   "{% extends '#wbase#' %}{% block w %}C{{ parent() }}{% endblock %}"}},
+	{name: "winclude", group: "include", tpls: map[string]string{
+		"top": "<{% include '#wpart#' %}>", "wpart": "(<B>)"}},
+	{name: "wincludeonly", group: "include", tpls: map[string]string{
+		"top": "<{% include '#wpart#' with {'x': x, 'xs': xs, 'm': m, 's': s} only %}>", "wpart": "(<B>)"}},
+	{name: "wmacro", group: "macro", tpls: map[string]string{
+		"top": "{% macro wm(" + wp + ") %}[<B>]{% endmacro %}{{ $wm$(" + wp + ") }}"}},
+	{name: "wimport", group: "macro", tpls: map[string]string{
+		"wlib": "{% macro wm(" + wp + ") %}[<B>]{% endmacro %}",
+		"top":  "{% import '#wlib#' as wl %}{{ wl.$wm$(" + wp + ") }}"}},
+	{name: "wapply", group: "apply", tpls: map[string]string{"top": "{% apply @f %}<B>{% endapply %}"}},
+	{name: "wspaceless", group: "spaceless", tpls: map[string]string{"top": "{% spaceless %}<B>{% endspaceless %}"}},
+}
+
+var nestedExprForms = map[string]bool{"filter": true, "func": true, "test": true, "filterarg": true, "ternfalse": true, "and": true, "hash": true, "seqfilterfirst": true}
+var nestedSeqForms = map[string]bool{"seqfilter": true, "seqfunc": true, "seqarray": true}
+
+var refRE = regexp.MustCompile(`#([a-z0-9]+)#`)
+
+// nest places the inner program inside the wrapper: inline where the inner top template is a plain
+// body, through an include where it extends another template or defines macros.
+func nest(w *wrapper, in *program) *program {
+	raw := map[string]string{}
+	ren := func(s string) string { return refRE.ReplaceAllString(s, "#i$1#") }
+	innerTop := ren(in.raw[in.top])
+	body := innerTop
+	inline := !strings.Contains(innerTop, "{% extends") && !strings.Contains(innerTop, "{% macro")
+	for n, s := range in.raw {
+		if n == in.top && inline {
+			continue
+		}
+		raw["i"+n] = ren(s)
+	}
+	if !inline {
+		body = "{% include '#i" + in.top + "#' %}"
+	}
+	for n, s := range w.tpls {
+		raw[n] = strings.ReplaceAll(s, "<B>", body)
+	}
+	p := &position{name: w.name + ">" + in.pos.name, group: w.group + ">" + in.pos.group, spless: in.pos.spless}
+	pr := buildProgram(w.name+">"+in.id, p, in.form, "top", raw)
+	pr.nested = true
+	return pr
+}
+
+func nestedPrograms() []*program {
+	var ps []*program
+	for wi := range wrappers {
+		w := &wrappers[wi]
+		for i := range positions {
+			p := &positions[i]
+			var forms []form
+			switch p.hole {
+			case 'E':
+				for _, f := range exprForms {
+					if nestedExprForms[f.name] {
+						forms = append(forms, f)
+					}
+				}
+			case 'S':
+				for _, f := range seqForms {
+					if nestedSeqForms[f.name] {
+						forms = append(forms, f)
+					}
+				}
+			case 'N':
+				continue // name expressions spell template names out; not nested
+			default:
+				forms = []form{{"-", ""}}
+			}
+			for _, f := range forms {
+				in := newProgram(p, f)
+				if skipCombos[in.id] {
+					continue
+				}
+				ps = append(ps, nest(w, in))
+			}
+		}
+	}
+	return ps
 }
 
 // sources materialises the templates. rename maps a site key to the name written at that site
@@ -840,7 +963,7 @@ func baseCase(pr *program, mode string) *vlib.Outcome {
 func main() {
 	twig.SetDebugWriter(io.Discard)
 	if os.Getenv("C17_DUMP") != "" {
-		for _, pr := range allPrograms() {
+		for _, pr := range append(allPrograms(), nestedPrograms()...) {
 			b := computeBaseline(pr)
 			n := 0
 			for _, c := range b.counts {
@@ -873,7 +996,7 @@ func main() {
 }
 
 func runAll(t *vlib.T) {
-	progs := allPrograms()
+	progs := append(allPrograms(), nestedPrograms()...)
 	bases := make([]baseline, len(progs))
 	for i, pr := range progs {
 		bases[i] = computeBaseline(pr)
@@ -882,6 +1005,10 @@ func runAll(t *vlib.T) {
 	useModes := quickModes
 	if t.Thorough() {
 		useModes = modes
+	}
+	// in the quick tier the depth-2 programs run in the plain and the debug mode only
+	skip := func(pr *program, mode string) bool {
+		return pr.nested && !t.Thorough() && mode != "R" && mode != "D"
 	}
 	note := func(s string) { t.Note(s) }
 	nBaseFail := 0
@@ -901,6 +1028,9 @@ func runAll(t *vlib.T) {
 	for _, mode := range useModes {
 		for _, pr := range progs {
 			pr, mode := pr, mode
+			if skip(pr, mode) {
+				continue
+			}
 			t.Case(pr.id+"|"+mode+"|base", func() *vlib.Outcome { return baseCase(pr, mode) })
 		}
 	}
@@ -908,13 +1038,16 @@ func runAll(t *vlib.T) {
 	for _, mode := range useModes {
 		for i, pr := range progs {
 			b := bases[i]
-			if !b.ok {
+			if !b.ok || skip(pr, mode) {
 				continue
 			}
 			for _, key := range b.keys {
 				variants := []string{"solo"}
 				if key[0] == 'L' {
 					variants = loaderVariants
+					if pr.nested && !t.Thorough() {
+						variants = []string{"solo", "beforeempty"}
+					}
 				}
 				for n := 1; n <= b.counts[key]; n++ {
 					for _, value := range []bool{false, true} {
@@ -971,7 +1104,7 @@ func runAll(t *vlib.T) {
 					if b.counts["L:"+st.Ref] == 0 && !strings.HasPrefix(pr.raw[st.Ref], "API-MACRO|") {
 						continue // the reference is never followed
 					}
-					ignore := strings.Contains(pr.raw[st.Tpl], "ignore missing")
+					ignore := st.Ignore
 					t.Case(pr.id+"|"+mode+"|name:"+st.Key+":missing", func() *vlib.Outcome {
 						return nameCase(pr, mode, st, "zznone", ignore, "template name at site "+st.Key+" ("+st.Ref+") replaced by one no loader has")
 					})
